@@ -10,5 +10,8 @@ CONSTANTS
   OwnBytes = TRUE
   Nodes = {}
   ConnConfig = "live"
+  BareUpdate = "refused"
+  Sizes = {0}
+  ReadLimit = 0
 INVARIANTS StoredForm ReadBack OnlyWhenEnabled OffMeansOff
 CHECK_DEADLOCK FALSE
